@@ -148,6 +148,14 @@ def oracle_dists(ctx, ss, sc):
                 try:
                     for which, uids in enumerate((U, U2)):
                         d, pars = build(mode)
+                        if rep % 2 == 1 and mode == 'scalar':
+                            # the object had an earlier life (created stand-alone, initialised, used) before it was initialised for this run
+                            try:
+                                d.init(trace='earlier_life', seed=seed + 1 + which, sim=do.mock_sim(slots), module=do.MockModule(), force=True)
+                                for _ in range(which * rng.randint(1, 3)):
+                                    d.rvs(ss.uids(rng.sample(range(n_agents), rng.randint(1, n_agents)))); d.jump()
+                            except Exception:
+                                pass
                         d.init(trace='oracle_' + fam, seed=seed, sim=do.mock_sim(slots), module=do.MockModule(), force=True)
                         if which == 1:      # a different earlier history: other steps, other amounts drawn
                             for t0 in sorted(rng.sample(range(0, ti), min(ti, rng.randint(0, 3)))):
@@ -239,6 +247,33 @@ def oracle_people_defaults(ctx, ss):
                       dict(finding_key='people-default-dists-not-stepped', without=res[0], with_extra=res[1]))
 
 
+def oracle_newborn_defaults(ctx, ss):
+    """A module state whose default is a distribution: the value drawn for a newborn depends on its slot, not on how many agents exist.
+    Two worlds with the same seed; in the second an extra isolated agent is created early, so later newborns get later uids but the same slots."""
+    from harness.probes import MarkerModule, ExtraAgent
+    rng = ctx.rng
+    for rep in range(ctx.n(2, 10)):
+        seed = rng.randrange(1, 10**4)
+        worlds = []
+        for extra in (False, True):
+            iv = [MarkerModule(name='marker')] + ([ExtraAgent(name='extra', at=1)] if extra else [])
+            sim = ss.Sim(n_agents=150, demographics=[ss.Pregnancy(fertility_rate=300, burnin=False)], interventions=iv, networks=ss.PrenatalNet(), dur=5, rand_seed=seed, verbose=0)
+            sim.run()
+            ppl = sim.people; n = int(ppl.uid.len_used); mk = sim.interventions.marker.marker
+            born = {}
+            for u in range(150, n):
+                m = int(ppl.parent.raw[u])
+                if m >= 0: born[(m, int(ppl.slot.raw[u]))] = float(mk.raw[u])
+            worlds.append(born)
+        common = set(worlds[0]) & set(worlds[1])
+        ctx.count(('newborn-defaults', seed), nontrivial=len(common) > 0); ctx.dist('oracle:newborn default dists (two worlds)')
+        bad = [k for k in sorted(common) if worlds[0][k] != worlds[1][k]]
+        if bad:
+            k = bad[0]
+            ctx.violation(f'a newborn (mother {k[0]}, slot {k[1]}) gets default-distribution value {worlds[0][k]} in one world and {worlds[1][k]} in a world that merely contains one more unrelated agent: '
+                          f'the draw is keyed by something other than (seed, distribution, step, call, slot) ({len(bad)} of {len(common)} newborns differ)', dict(seed=seed, mother=k[0], slot=k[1]))
+
+
 def oracle_sim_extension(ctx, ss, sc):
     """Adding isolated agents leaves every original agent's infection history unchanged (slot-keyed network)."""
     rng = ctx.rng
@@ -283,6 +318,7 @@ def run(ctx):
     ctx.guard('oracle_dists', oracle_dists, ctx, ss, sc); ctx.log('oracle_dists done')
     ctx.guard('oracle_people_defaults', oracle_people_defaults, ctx, ss); ctx.log('oracle_people_defaults done')
     ctx.guard('oracle_sim_extension', oracle_sim_extension, ctx, ss, sc); ctx.log('oracle_sim_extension done')
+    ctx.guard('oracle_newborn_defaults', oracle_newborn_defaults, ctx, ss); ctx.log('oracle_newborn_defaults done')
 
 
 def replay(ctx, rp):
